@@ -54,6 +54,9 @@ CHECKS = {
  "C11": ("small-scope program enumeration (E1): every pair of bound declarations over a type alphabet x 25 rule shapes x fact sets admitted by the declaration, through AnalyzeAndCheckBounds(ErrorForBoundsMismatch) and evaluation; every stored fact re-checked with the library's run-time type check",
          "bounded-exhaustive: every (declarations, rule, facts) combination in scope that analysis accepts is evaluated and every fact of the declared predicates must pass builtin.TypeChecker.CheckTypeBounds",
          "membership is the library's own HasType; violations explained by the recorded map-key-variance / struct-width inconsistencies (C12) or by uninstantiated type variables of :match_pair/:match_cons are known findings", "4 C11"),
+ "C15": ("small-scope program enumeration (E1): every <=k-rule program of pools G,R,N,B x EDBs; every stored fact is explained post-hoc and from a recording; every proof validated by an independent proof checker; identifier/content bijection; recorder on/off store equality",
+         "bounded-exhaustive: for every program/EDB in scope and EVERY fact of the evaluated store, the returned proofs are re-checked literal by literal (head and body re-instantiated from the reported bindings, leaves against store and base facts, no fact its own ancestor) and a complete proof is demanded for transform-free programs",
+         "independent checker in verifmc; missing/partial proofs for goals that depend on recursive predicates are the known finding F9 (memoisation under a cycle cut) and attributed only then", "4 C15"),
 }
 NOT_APPLICABLE = {
 }
